@@ -393,3 +393,33 @@ def origin_class(key: str | None) -> str:
     if key is None:
         return "no"
     return "a" if key == "a2" else key
+
+
+# ------------------------------------------------ fault-injecting property (C16)
+class _Hook:
+    """A mashumaro field-level serialize hook whose k-th invocation may raise."""
+
+    callback: Any = None  # callable(k) -> truthy => raise
+    count = 0
+
+    @classmethod
+    def reset(cls) -> None:
+        cls.callback = None
+        cls.count = 0
+
+
+def _hook_serialize(value: int) -> int:
+    _Hook.count += 1
+    cb = _Hook.callback
+    if cb is not None and cb(_Hook.count):
+        raise ValueError(f"injected failure at nested object #{_Hook.count}")
+    return value
+
+
+@dataclass(frozen=True)
+class VHook(VBase):
+    payload: int = field(default=0, metadata={"serialize": _hook_serialize})
+    kid: VBase | None = None
+
+
+CLASSES["VHook"] = VHook
